@@ -64,7 +64,8 @@ struct ts_msg {
   _Bool is_hello;              /* is the method call org.freedesktop.DBus.Hello addressed to the bus */
   enum ts_err error_name;      /* for ERROR messages built by dbus_message_new_error            */
   struct ts_msg *in_reply_to;
-  _Bool has_string_arg; const char *string_arg;   /* body "s" appended by dbus_message_append_args */
+  _Bool has_string_arg; const char *string_arg;   /* first STRING of the body appended by dbus_message_append_args */
+  int n_string_args;           /* number of STRING arguments appended (the body signature is that many 's')  */
   int refs;                    /* reference count held by the code under verification            */
 };
 
@@ -168,10 +169,12 @@ extern _Bool ts_oom_preallocated;  /* the connection holds a preallocated NoMemo
  *    m has any; FALSE => error set, and unless it is NoMemory nothing was staged for addressed (no delivery after denial).
  *    REQUIRES also that m has a non-zero serial: a refusal for one recipient is reported to the monitors as an error reply
  *    to m (C18: monitors see "messages the bus refuses to deliver"), and API dbus_message_new_error needs that serial. */
+/* stated (and named) separately from the rest of the two preconditions below */
+#define PRE_routed_has_serial(m) (TS_MSG(m)->serial != 0)
 #define PRE_send_one_message(c, ctx, sender, addressed, m, t, error) \
-  ((c) != NULL && (ctx) != NULL && (m) != NULL && (t) != NULL && (error) != NULL && (error)->name == NULL && TS_OBSERVABLE(m, sender) && TS_MSG(m)->serial != 0)
+  ((c) != NULL && (ctx) != NULL && (m) != NULL && (t) != NULL && (error) != NULL && (error)->name == NULL && TS_OBSERVABLE(m, sender))
 #define PRE_bus_dispatch_matches(t, sender, addressed, m, error) \
-  ((t) != NULL && (m) != NULL && TS_OBSERVABLE(m, sender) && ((error) == NULL || (error)->name == NULL) && TS_MSG(m)->serial != 0 && \
+  ((t) != NULL && (m) != NULL && TS_OBSERVABLE(m, sender) && ((error) == NULL || (error)->name == NULL) && \
    ((sender) == NULL || TS_CONN(sender)->active) && \
    IMP(TS_MSG(m) == G.dispatched, G.captures == 1 && G.routed == 0 && G.activations == 0 && \
        IMP(G.driver_handled > 0, G.driver_ok && (addressed) == NULL)))   /* a message the driver handled is still shown to match rules, but has no other addressee */
